@@ -20,6 +20,39 @@ CHECKS = {
              "source. Held = no divergence on the histories explored, not a proof.",
         ref="DESIGN.md §5 C02",
     ),
+    "C04": dict(
+        technique="runtime monitoring: every admissible window sampled through the "
+                  "public API after every add (stub generator), checked against "
+                  "(episode,t,id) tags embedded in the stored values; reduced view "
+                  "vs full view",
+        text="Exploration plus bounded enumeration. Random histories and all "
+             "histories of <=3 (quick) / <=4 (thorough) episodes of length <=3 are "
+             "added to the real subtrajectory buffers; after each add every "
+             "admissible start is sampled and every returned window is checked row "
+             "by row up to its first terminated step. Held = no bad window among "
+             "those observed.",
+        ref="DESIGN.md §5 C04",
+    ),
+    "C08": dict(
+        technique="runtime monitoring: shadow priority vector + exact float64 "
+                  "cumulative-interval oracle for chosen uniform variates (stub "
+                  "generator), state comparison after every operation, empirical "
+                  "frequencies (6 sigma) under a real generator",
+        text="Exploration. Histories of add/sample/update/reset on LAP, the "
+             "stratified PER buffer, the masked subtrajectory PER buffer and the "
+             "multi-task wrapper; each returned index is compared with the index "
+             "whose cumulative-priority interval contains the chosen variate "
+             "(midpoints, interval ends, 2^-53, 1-2^-53).",
+        ref="DESIGN.md §5 C08",
+    ),
+    "C18": dict(
+        technique="runtime monitoring: float64 reference oracles on the real "
+                  "functions over boundary-heavy generated inputs; bitwise "
+                  "perturbation oracle for masked rows",
+        text="Exploration of the numeric blocks on bin edges, extremes, |e|=delta, "
+             "masked rows, near-zero vectors, non-integral schedule spans.",
+        ref="DESIGN.md §5 C18",
+    ),
 }
 
 NOT_YET = {}
